@@ -196,6 +196,7 @@ def run (caseToks impl : List String) : String :=
   | "rp" :: rest => C17Policy.rp parseInt64 optStr rest impl
   | "re" :: rest => C17Policy.re rest impl
   | "hm" :: rest => C17HeaderMaps.hm rest impl
+  | "ah" :: rest => C17HeaderMaps.ah rest impl
   | _ => "E E unknown-kind"
 
 end MosnVerif.Drive.C17
